@@ -86,6 +86,10 @@ MUTANTS = [
     ("C09", "R3", DOC, "node.rust_type.xml_name().is_some_and(|n| n == xml_name) && node.in_namespace.as_deref() == namespace", "node.rust_type.xml_name().is_some_and(|n| n == xml_name)", "namespace dropped from lookup"),
     ("C10", "R1", DOC, "existing_namespaces.iter().any(|ns| ns.abbreviation == use_abbreviation)", "existing_namespaces.iter().any(|ns| ns.namespace == use_abbreviation)", "uniqueness test on wrong field"),
     ("C10", "R2", DOC, "let abbreviation = make_abbreviated_namespace(namespace, &self.namespaces);", "let abbreviation = make_abbreviated_namespace(namespace, &self.target_namespaces);", "wrong registry"),
+    ("C10", "R6", DOC, "                if let Some(target_namespace) = schema.attribute(\"targetNamespace\") {\n                    doc.switch_to_target_namespace(target_namespace);\n                }\n                let rust_node",
+     "                let rust_node", "found definition read under the referring schema's namespace"),
+    ("C10", "R6", DOC, "                doc.current_target_namespace = referring;\n", "", "namespace of the found definition stays current"),
+    ("C10", "R6", DOC, "                doc.current_target_namespace = referring;\n", "                doc.current_target_namespace = doc.current_target_namespace.clone();\n", "restore of the value just set"),
     ("C14", "R2", FIELD, '        "match" => "r#match",\n', "", "keyword row deleted"),
     ("C14", "R1", RESTR, 'writeln!(writer, "      {value:?}.to_string(),")?;', 'writeln!(writer, "      \\"{value}\\".to_string(),")?;', "enumeration unescaped"),
     ("C14", "R1", WRITER, "        for line in comment.split(['\\n', '\\r']) {", "        for line in comment.split('\\n') {", "CR in doc comment"),
